@@ -10,10 +10,10 @@ import (
 	"deps.dev/util/resolve/version"
 )
 
-var c12VerTemplates = []string{"d.d.d", "d.d.d-l", "d.d", "zzz", "d.d.d-d", "d.d.d.d", "vd.d.d", "d.d.d+l"}
+var c12VerTemplates = []string{"d.d.d", "d.d.d-l", "d.d", "zzz", "d.d.d-d", "d.d.d.d", "vd.d.d", "d.d.d+l", "d.5"}
 var c12ReqTemplates = map[System][]string{
 	NPM:   {"^d.d.d", ">=d.d.d", "d.d.d", "latest", "*", "<d.d.d", "~d.d", "zzz", "d.x", ">=d.d.d-l <d.d.d", ">=d.d.d-l", "next"},
-	Maven: {"[d.d,d.d]", "d.d.d", "[d.d.d,)", "(,d.d.d)", "[d.d.d]"},
+	Maven: {"[d.d,d.d]", "d.d.d", "[d.d.d,)", "(,d.d.d)", "[d.d.d]", "[1.0,d.0),[d.0,9.0)", "(,d.1),(d.1,)"}, // the last two: unions of ranges with a gap
 	PyPI:  {">=d.d", "==d.d.d", "<d.d.d", "!=d.d.d", "~=d.d", ""},
 }
 
